@@ -255,7 +255,8 @@ func fGenText(thorough bool) (*fDoc, Options) {
 			d.plain(";" + fLower("lc", 2) + " tag:" + fLower("lv", 2) + ", other")
 			d.plain("")
 		}
-		fTextTx(d, "t0", 0, 1, false)
+		// with and without an inline comment on the first posting
+		fTextTx(d, "t0", 0, zzverif.Choice("t0.cmt", 2), false)
 		switch zzverif.Choice("tailm", 3) {
 		case 1:
 			d.plain("")
@@ -279,7 +280,7 @@ func fGenText(thorough bool) (*fDoc, Options) {
 		for i := range d.lines {
 			// blank lines of G are empty (a whitespace-only line is not a blank line)
 			if (where == len(d.lines) || where == i) && d.lines[i].text != "" {
-				d.lines[i].text += trail
+				d.lines[i].addTrail(trail)
 			}
 		}
 	}
@@ -302,11 +303,12 @@ func fGenFormats(thorough bool) (*fDoc, Options) {
 	how := 0
 	sweep := zzverif.Choice("case", 2) == 0
 	if sweep {
-		sample, _, _, d.fmtPlaces = c04SymFormat(maxPlaces)
+		sample, d.fmtDM, d.fmtSep, d.fmtPlaces = c04SymFormat(maxPlaces)
 	} else {
 		menu := []string{"1,000.00", "1.000,00", "1 000.0", "1000", "1000,000"}
 		k := zzverif.Choice("fmt.menu", len(menu))
 		sample, d.fmtPlaces = menu[k], []int{2, 2, 1, 0, 3}[k]
+		d.fmtDM, d.fmtSep = []byte{'.', ',', '.', 0, ','}[k], []string{",", ".", " ", "", ""}[k]
 		how = zzverif.Choice("dir.how", 5)
 	}
 	switch how {
@@ -326,14 +328,14 @@ func fGenFormats(thorough bool) (*fDoc, Options) {
 	d.plain(fHeader("h", 0))
 	left := how >= 3
 	mk := func(name string, numKind int) *fAmt {
-		n, f := fNumberF(name, numKind, true)
+		n, ip, f := fNumberF(name, numKind, true)
 		if zzverif.Choice(name+".neg", 2) == 1 {
 			n = "-" + n
 		}
 		if left {
-			return &fAmt{text: "$" + n, frac: f}
+			return &fAmt{text: "$" + n, gov: true, ip: ip, frac: f}
 		}
-		return &fAmt{text: n + " EUR", frac: f}
+		return &fAmt{text: n + " EUR", gov: true, ip: ip, frac: f}
 	}
 	nums := []int{0, 1, 3, 7, 9}
 	if thorough {
@@ -358,11 +360,9 @@ func fGenFormats(thorough bool) (*fDoc, Options) {
 	d.add(p.line())
 	// second posting in another commodity: a D format applies to it as well
 	q := &fPosting{ind: "    ", acct: fAcct("p1", 1), gap: "  "}
-	n, f := fNumberF("p1.n", 1, true)
-	q.amount = &fAmt{text: n + " USD"}
-	if how == 2 || how == 4 {
-		q.amount.frac = f
-	}
+	n, ip, f := fNumberF("p1.n", 1, true)
+	// a D directive's format is the default format of every commodity
+	q.amount = &fAmt{text: n + " USD", gov: how == 2 || how == 4, ip: ip, frac: f}
 	d.add(q.line())
 	return d, opts
 }
@@ -379,6 +379,8 @@ func fGenJunk(thorough bool) (*fDoc, Options) {
 	}
 	n := 1 + zzverif.Choice("junk.len", maxLen)
 	p.junk = zzverif.Text("junk", zzverif.Printable(" "), n)
+	// a tail that starts a comment, a cost or an assertion may be a construct of G
+	zzverif.Assume(p.junk[0] != ';' && p.junk[0] != '@' && p.junk[0] != '=')
 	d.add(p.line())
 	if zzverif.Choice("more", 2) == 1 {
 		d.add(fSimplePosting("p1", 1, true).line())
